@@ -70,6 +70,8 @@ func main() {
 		c.Shard, c.NShards = *shard, *nshards
 		spec.Run(c)
 		c.Finish()
+	case "probe":
+		os.Exit(checks.Probe(os.Args[2:]))
 	case "replay":
 		if len(os.Args) < 3 {
 			os.Exit(64)
